@@ -36,10 +36,11 @@ VOCAB = [
     "s = 'abc&", "  &def'", "s = 'it''s'", "x = 2 ! c & d", "x = 3 ; y = 4", "call m()", "#ifdef A", "#else", "#endif", "#define Q 1",
     "!dir$ ivdep", "!$ x = 5", "x = 1 & ! c", "  ! c in continuation", "s = \"say \"\"hi\"\"\" // '!'", "x = Q", "#if defined(A) && \\",
     "    defined(C)", "s = 'back\\'", "s = '&' // \"&\"", "y = x & ! 'q", "  &   + 1 ! \"", "#undef Q",
+    "s = \"a & ! b\"", "! plain comment",
 ]
 
 LITS = ["'a ! b'", "\"x & y\"", "'it''s'", "\"say \"\"hi\"\"\"", "'a // b'", "'!'", "'&'", "\"'\"", "'\"'", "'plain'", "\"#if 0\"", "'! &'",
-        "'a&b'", "\"!$omp\""]
+        "'a&b'", "\"!$omp\"", "'stop &  ! now'", "\"a & ! b\"", "'x &'"]
 COMMENTS = ["! c", "! don't", "! \"x", "! a & b", "!! double", "!c$", "! #ifdef A", "!$omp parallel", "!$acc kernels", "!dir$ ivdep", "!$ y = 1"]
 
 
@@ -55,7 +56,7 @@ def exhaustive(tier):
 def required_cells(tier):
     return ["comment", "comment-in-continuation", "blank-in-continuation", "continuation", "leading-&", "literal-continued",
             "doubled-quote", "special-char-in-literal", "sentinel", "directive", "comment-after-&", "selection-compared",
-            "define-sets>=4", "class:E", "class:R", "include"]
+            "define-sets>=4", "class:E", "class:R", "include", "all-code-lines-compared", "directive-inside-continuation"]
 
 
 def gfortran(args, cwd):
@@ -91,6 +92,10 @@ def rand_body(rng, depth=0):
                 out.append(lead + p + tail)
                 if not last and rng.random() < 0.35:
                     out.append(rng.choice(["  ! comment inside", "", "   ! 'quote", "!$omp flush"]))
+        elif x < 0.68 and depth < 3:
+            # preprocessor conditional interleaved inside a continued statement
+            nm = rng.choice(["A", "C"])
+            out += ["x = 1 &", f"#ifdef {nm}", "  + 2 &" if rng.random() < 0.5 else "  & + 2 &", "#else", "  + 3 &", "#endif", "  + 4"]
         elif x < 0.7:
             out.append("s = 'abc&")
             if rng.random() < 0.3:
@@ -164,6 +169,8 @@ def check_text(ctx, text, work, cls, defsets):
         acc.excluded("gfortran-rejects", cls=cls)
         return
     cells = set(n for n in notes) | {"class:" + cls}
+    if re.search(r"&[ \t]*(![^\n]*)?\n#", text):
+        cells.add("directive-inside-continuation")
     problems = []
     try:
         tree = file_parser.FileParser(path).parse_file(summarize_only=False)
@@ -204,6 +211,30 @@ def check_text(ctx, text, work, cls, defsets):
             if got != live:
                 problems.append({"kind": "conditional-selection", "defines": ds, "expected": sorted(live), "observed": sorted(got)})
                 break
+            # every counted non-directive line: used iff gfortran keeps text on that physical line
+            rc2, out2, err2 = gfortran(["-cpp", "-E", "-I", work] + ds + [path], work)
+            acc.hook("H-gfortran")
+            if rc2 == 0 and not err2.strip():
+                kept = set()
+                cur = None
+                base = os.path.basename(path)
+                for ln_text in out2.split("\n"):
+                    mm = re.match(r'^# (\d+) "([^"]*)"', ln_text)
+                    if mm:
+                        cur = int(mm.group(1)) if os.path.basename(mm.group(2)) == base else None
+                        continue
+                    if cur is not None:
+                        if ln_text.strip():
+                            kept.add(cur)
+                        cur += 1
+                code_lines = [ln for ln in counted if ln not in directive]
+                exp_used = {ln for ln in code_lines if ln in kept}
+                got_used = {ln for ln in code_lines if ln in used}
+                cells.add("all-code-lines-compared")
+                if exp_used != got_used:
+                    problems.append({"kind": "line-selection", "defines": ds, "missing": sorted(exp_used - got_used)[:10],
+                                     "extra": sorted(got_used - exp_used)[:10]})
+                    break
             if '#include "inc.h"' in text:
                 cells.add("include")
                 inc_used = bool(state.get_tree(os.path.join(work, "inc.h")) and cbi.used_lines(state, os.path.join(work, "inc.h"), "p"))
